@@ -1468,6 +1468,8 @@ fn parse_unary_expression(tokens: &mut Tokens) -> Result<Expression, Error>
 		{
 			tokens.pop_front();
 			let location_of_op = tokens.last_location.clone();
+			let is_unsuffixed_bit_integer =
+				matches!(peek(tokens), Some(Token::BitInteger(_)));
 			let expr = parse_primary_expression(tokens)?;
 			let location =
 				location_of_op.clone().combined_with(expr.location());
@@ -1491,6 +1493,7 @@ fn parse_unary_expression(tokens: &mut Tokens) -> Result<Expression, Error>
 					value_type,
 					location: _,
 				} if value == (1u128 << 127)
+					&& !is_unsuffixed_bit_integer
 					&& value_type.as_ref().map_or(true, |vt| match vt
 					{
 						Ok(vt) => vt.is_signed(),
